@@ -110,8 +110,19 @@ let handle (i : string list) (o : string list) =
     let xlens = Array.of_list (List.map (fun tok ->
         try let ce = String.rindex tok '}' in
           let rest = String.sub tok (ce + 1) (String.length tok - ce - 1) in
-          if String.length rest > 1 && rest.[0] = 'x' then int_of_n (n_of_hex (String.sub rest 1 (String.length rest - 1))) else 0
+          if String.length rest > 1 && rest.[0] = 'x' then
+            (let body = String.sub rest 1 (String.length rest - 1) in
+             let body = (match String.index_opt body 'y' with Some i -> String.sub body 0 i | None -> body) in
+             int_of_n (n_of_hex body)) else 0
         with Not_found -> 0) o) in
+    (* size after the operation (token suffix y<hex>); absent in old corpus lines: the next operation's "before" *)
+    let ylens = Array.of_list (List.map (fun tok ->
+        try let ce = String.rindex tok '}' in
+          let rest = String.sub tok (ce + 1) (String.length tok - ce - 1) in
+          (match String.index_opt rest 'y' with
+           | Some i -> Some (int_of_n (n_of_hex (String.sub rest (i + 1) (String.length rest - i - 1))))
+           | None -> None)
+        with Not_found -> None) o) in
     let cur_xml = ref 0 in
     let publish_failed = ref false in
     let hang = ref false in   (* a `q` operation (read until nothing to send at one instant) exceeded 5000 packets *)
@@ -198,7 +209,10 @@ let handle (i : string list) (o : string list) =
            after a transfer ended / started in the same read): when the two sizes fall on different
            sides of the Raptor limit both answers of the oracle are tried, the one reproducing the
            implementation's output is kept *)
-        let before = !cur_xml and after = (if k + 1 < Array.length xlens then xlens.(k + 1) else !cur_xml) in
+        let before = !cur_xml
+        and after = (match (if k < Array.length ylens then ylens.(k) else None) with
+            | Some l -> l
+            | None -> if k + 1 < Array.length xlens then xlens.(k + 1) else !cur_xml) in
         let pf0 = !publish_failed in
         let attempt seq = (xml_seq := seq; xml_calls := 0; cur_xml := (match List.rev seq with l :: _ -> l | [] -> before);
                            publish_failed := pf0; let r = step fdt_npk fdt_ok divf s0 mop in (r, !publish_failed, seq)) in
